@@ -3,7 +3,7 @@
    which does not use the parser model.
 
    UNBOUNDED on a fragment (C03_fragment_parses): for every tree - any number of blocks, any
-   depth - built from one-line plain paragraphs, fenced code blocks (` or ~ fences of any length, any content lines),
+   depth - built from plain paragraphs of one or more lines, ATX headings, fenced code blocks (` or ~ fences of any length, any content lines),
    block quotes and single-item lists (markers
    + - * and 1-9 digits with . or ), padding 1-4), siblings separated by one blank line, two
    lists never being adjacent siblings, the block tokenizer returns on the spelled text exactly
@@ -18,7 +18,7 @@
    decided on the implementation by the generator oracle, the model tied to it by X-doc. *)
 From Coq Require Import ZArith List Bool.
 From Mistletoe Require Import Base.Sx Base.PyStr Gen.GenConfig Model.Tree Model.CoreTokens Model.Block Model.Build Proofs.PlainProse Model.HtmlRenderer Model.Parser Spec.Spell Proofs.SpellLaw Proofs.SpellP
-     Proofs.ListLaw Spec.Fragment Proofs.FragmentP.
+     Proofs.ListLaw Proofs.ProseLines Spec.Fragment Proofs.FragmentP.
 Import ListNotations.
 Local Open Scope Z_scope.
 
@@ -47,18 +47,18 @@ Print Assumptions C03_fragment_parses.
 Theorem C03_fragment_hypotheses :
   forallb (fun c => fragment_config (cfg_block c)) [cfg_html; cfg_html_nohtml; cfg_latex; cfg_mathjax; cfg_default] = true /\
   (let fence := FFence 96 3 [SLine 2 120 $" = 1"; SBlank; SLine 0 35 $" not a heading"] in
-   let t1 := FItem (MBullet 45) 2 [FPara 97 $"b"; FQuote [FPara 99 $"d"; FItem (MOrdered $"12" 41) 1 [FPara 101 []; fence]; FPara 103 []]; FPara 102 []] in
-   let t2 := FQuote [FQuote [FPara 97 []]; fence; FPara 98 []; t1] in
+   let t1 := FItem (MBullet 45) 2 [FPara 97 $"b" []; FQuote [FPara 99 $"d" []; FItem (MOrdered $"12" 41) 1 [FPara 101 [] []; fence]; FPara 103 [] []]; FPara 102 [] []] in
+   let t2 := FQuote [FQuote [FPara 97 [] []]; fence; FPara 98 [] []; t1] in
    wf_b t2 = true /\ depth t2 = 4%nat /\ length (spell t2) = 25%nat /\
-   text_of (spell (FItem (MOrdered $"12" 41) 1 [FPara 101 []; fence])) =
+   text_of (spell (FItem (MOrdered $"12" 41) 1 [FPara 101 [] []; fence])) =
      [ $"12) e" ++ [10]; [10]; $"    ```" ++ [10]; $"      x = 1" ++ [10]; [10]; $"    # not a heading" ++ [10]; $"    ```" ++ [10] ]).
 Proof. split; [exact fragment_configs|exact fragment_instance]. Qed.
 Print Assumptions C03_fragment_hypotheses.
 
 (* ... and through the inline phase: the token tree of the spelled text is the tree it was written from
-   (tok_of: paragraphs holding their line as raw text, quotes, single-item lists with the marker's attributes) *)
+   (tok_of: paragraphs holding their lines as raw text separated by soft line breaks, quotes, single-item lists with the marker's attributes) *)
 Theorem C03_fragment_token_tree : forall types span_types keep fn t f ln st,
-  fragment_config types = true -> forallb kind_quiet (removelast span_types) = true -> wf_b t = true -> (depth t <= f)%nat ->
+  fragment_config types = true -> prose_spans span_types = true -> wf_b t = true -> (depth t <= f)%nat ->
   make_tokens span_types keep fn (fst (fst (tokenize_block types (S f) (text_of (spell t)) ln st))) = [tok_of false t].
 Proof. exact fragment_token_tree. Qed.
 Print Assumptions C03_fragment_token_tree.
@@ -72,7 +72,7 @@ Proof. exact fuel_suffices. Qed.
 Print Assumptions C03_fragment_fuel_suffices.
 
 Theorem C03_fragment_document : forall cfg t,
-  fragment_config (cfg_block cfg) = true -> forallb kind_quiet (removelast (cfg_span cfg)) = true -> wf_b t = true ->
+  fragment_config (cfg_block cfg) = true -> prose_spans (cfg_span cfg) = true -> wf_b t = true ->
   fst (fst (parse_lines cfg (text_of (spell t)))) = Document [tok_of false t].
 Proof. exact fragment_document. Qed.
 Print Assumptions C03_fragment_document.
@@ -83,7 +83,7 @@ Proof. exact fragment_document_markdown. Qed.
 Print Assumptions C03_fragment_document_markdown.
 
 Theorem C03_fragment_document_configs :
-  forallb (fun c => fragment_config (cfg_block c) && forallb kind_quiet (removelast (cfg_span c)))
+  forallb (fun c => fragment_config (cfg_block c) && prose_spans (cfg_span c))
           [cfg_html; cfg_html_nohtml; cfg_latex; cfg_mathjax; cfg_default] = true.
 Proof. exact document_configs. Qed.
 Print Assumptions C03_fragment_document_configs.
@@ -95,7 +95,7 @@ Print Assumptions C03_fragment_document_configs.
    break characters *)
 From Mistletoe Require Import Proofs.FragmentHtml.
 Theorem C03_fragment_html : forall cfg o t,
-  fragment_config (cfg_block cfg) = true -> forallb kind_quiet (removelast (cfg_span cfg)) = true -> wf_b t = true ->
+  fragment_config (cfg_block cfg) = true -> prose_spans (cfg_span cfg) = true -> wf_b t = true ->
   render_html o (fst (fst (parse_lines cfg (text_of (spell t))))) = html_f o false t ++ [10].
 Proof. exact fragment_html. Qed.
 Print Assumptions C03_fragment_html.
@@ -107,7 +107,7 @@ Print Assumptions C03_fragment_markdown_html.
 
 Theorem C03_fragment_html_instance :
   let fence := FFence 96 3 [SLine 2 120 $" < 1"; SBlank; SLine 0 35 $" not a heading"] in
-  let t := FQuote [FItem (MOrdered $"12" 41) 1 [FPara 101 []; fence]; FPara 120 []; FItem (MBullet 45) 2 [FPara 97 $" > b"]] in
+  let t := FQuote [FItem (MOrdered $"12" 41) 1 [FPara 101 [] []; fence]; FPara 120 [] []; FItem (MBullet 45) 2 [FPara 97 $" > b" []]] in
   wf_b t = true /\ one_string_ok t = true /\
   html_f (mkHopts false false) false t =
     $"<blockquote>" ++ [10] ++ $"<ol start=""12"">" ++ [10] ++ $"<li>" ++ [10] ++ $"<p>e</p>" ++ [10] ++
@@ -155,3 +155,27 @@ Theorem C03_outline_instance :
     $"</ul>" ++ [10] ++ $"</li>" ++ [10] ++ $"</ul>" ++ [10] ++ $"</li>" ++ [10] ++ $"<li>Usage</li>" ++ [10] ++ $"</ul>".
 Proof. vm_compute. repeat split; reflexivity. Qed.
 Print Assumptions C03_outline_instance.
+
+(* paragraphs of several lines inside the fragment: an instance with its text, its HTML and the round-trip condition *)
+From Mistletoe Require Import Proofs.RoundTrip.
+Theorem C03_fragment_paragraph_lines_instance :
+  let t := FQuote [FPara 97 $"b" [ $"second line"; $"third, (line)" ]; FItem (MBullet 45) 2 [FPara 99 [] [ $"d e" ]; FPara 102 [] []]] in
+  wf_b t = true /\ rt_ok t = true /\ one_string_ok t = true /\
+  concat (text_of (spell t)) =
+    $"> ab" ++ [10] ++ $"> second line" ++ [10] ++ $"> third, (line)" ++ [10] ++ $"> " ++ [10] ++ $"> -  c" ++ [10] ++ $">    d e" ++ [10] ++ $"> " ++ [10] ++ $">    f" ++ [10] /\
+  html_f (mkHopts false false) false t =
+    $"<blockquote>" ++ [10] ++ $"<p>ab" ++ [10] ++ $"second line" ++ [10] ++ $"third, (line)</p>" ++ [10] ++ $"<ul>" ++ [10] ++ $"<li>" ++ [10] ++
+    $"<p>c" ++ [10] ++ $"d e</p>" ++ [10] ++ $"<p>f</p>" ++ [10] ++ $"</li>" ++ [10] ++ $"</ul>" ++ [10] ++ $"</blockquote>".
+Proof. vm_compute. repeat split; reflexivity. Qed.
+Print Assumptions C03_fragment_paragraph_lines_instance.
+
+Theorem C03_fragment_headings_instance :
+  let t := FQuote [FHead 2 84 $"itle: 2 + 2"; FPara 97 $"b" [ $"second line" ]; FItem (MBullet 45) 2 [FHead 6 100 $"eep"; FPara 102 [] []]] in
+  wf_b t = true /\ rt_ok t = true /\ one_string_ok t = true /\
+  concat (text_of (spell t)) =
+    $"> ## Title: 2 + 2" ++ [10] ++ $"> " ++ [10] ++ $"> ab" ++ [10] ++ $"> second line" ++ [10] ++ $"> " ++ [10] ++ $"> -  ###### deep" ++ [10] ++ $"> " ++ [10] ++ $">    f" ++ [10] /\
+  html_f (mkHopts false false) false t =
+    $"<blockquote>" ++ [10] ++ $"<h2>Title: 2 + 2</h2>" ++ [10] ++ $"<p>ab" ++ [10] ++ $"second line</p>" ++ [10] ++ $"<ul>" ++ [10] ++ $"<li>" ++ [10] ++
+    $"<h6>deep</h6>" ++ [10] ++ $"<p>f</p>" ++ [10] ++ $"</li>" ++ [10] ++ $"</ul>" ++ [10] ++ $"</blockquote>".
+Proof. vm_compute. repeat split; reflexivity. Qed.
+Print Assumptions C03_fragment_headings_instance.
